@@ -129,3 +129,13 @@ check("C16",
       "Trusted: z3; simulators built with __new__ around a scripted driver path; exp axioms. Bounds: <= 2/3 steps, dimensions <= 2, <= 2/3 rates. Outside: "
       "Libor drift term (dblquad), sigma(t) schedules of the Libor/forward coefficient functions, epsilon = h^BG hand-over.",
       TECH, "DESIGN.md section 3 C16")
+
+check("C13",
+      "Bounded model checking of the real grid constructors and refine() on symbolic steps, bounds and thresholds: strictly increasing axes, 0 at the "
+      "origin index with -h/+h neighbours, end points = reported truncations, credit thresholds exactly on cell boundaries; after k refinements old "
+      "states sit at 2^k times their index, new states are the grid's own cell boundaries, h halves, the origin index doubles, truncations unchanged, "
+      "shared axes are refined once each.",
+      "Trusted: z3; compute_truncation (Brent) and np.geomspace are contract stubs (any l < -h/2 < h/2 < r; any strictly monotone sequence). Bounds: "
+      "point counts <= 5/9 per axis, dimension <= 3, <= 3 refinements. Outside: probability-step axes, promised tail probabilities. Known findings: "
+      "uniform grid with a truncation closer than 2h; credit grid with threshold inside the first step / mirrored threshold beyond r.",
+      TECH, "DESIGN.md section 3 C13")
